@@ -45,7 +45,51 @@ fn both<T: ToJmespath + Clone>(x: T) -> Value {
     both_with(x, tag_var)
 }
 
+/// Inputs of types WITHOUT a specialised conversion (containers, tuples, structs, 128-bit integers, maps with keys that are not
+/// strings): under every feature set they take the generic route, so the outcome -- a value or a refusal -- must be the same.
+fn generic_by_name(name: &str) -> Value {
+    use std::collections::{BTreeMap, HashMap};
+    #[derive(serde_derive::Serialize, Clone)]
+    struct P { x: i32, y: Option<String> }
+    match name {
+        "Vec<i32>" => both(vec![1, -2, 3]),
+        "&Vec<i32>" => { let v = vec![1, -2, 3]; both(&v) }
+        "BTreeMap<String,i32>" => both([("a".to_string(), 1), ("b".to_string(), 2)].iter().cloned().collect::<BTreeMap<String, i32>>()),
+        "BTreeMap<u16,String>" => both([(80u16, "http".to_string()), (443u16, "https".to_string())].iter().cloned().collect::<BTreeMap<u16, String>>()),
+        "BTreeMap<bool,i32>" => both([(true, 1)].iter().cloned().collect::<BTreeMap<bool, i32>>()),
+        "BTreeMap<char,i32>" => both([('k', 1)].iter().cloned().collect::<BTreeMap<char, i32>>()),
+        "HashMap<i64,()>" => both([(7i64, ())].iter().cloned().collect::<HashMap<i64, ()>>()),
+        "Vec<BTreeMap<u8,u8>>" => both(vec![[(1u8, 2u8)].iter().cloned().collect::<BTreeMap<u8, u8>>()]),
+        "(i32,String)" => both((1, "s".to_string())),
+        "P" => both(P { x: 1, y: None }),
+        "Option<i32>" => both(Some(5)),
+        "Option<()>" => both(None::<()>),
+        "i128" => both(5i128),
+        "u128" => both(7u128),
+        "i128big" => both(i128::MAX),
+        "[u8;2]" => both([1u8, 2u8]),
+        "Box<i32>" => both(Box::new(3)),
+        "char" => both('c'),
+        "f32nan" => both(f32::NAN),
+        "f64nan" => both(f64::NAN),
+        "f64inf" => both(f64::INFINITY),
+        "f32neginf" => both(f32::NEG_INFINITY),
+        "&f64nan" => { let x = f64::NAN; both(&x) }
+        "Vec<f64>" => both(vec![0.5, f64::INFINITY]),
+        "(BTreeMap<i8,i8>,i8)" => both(([(1i8, 1i8)].iter().cloned().collect::<BTreeMap<i8, i8>>(), 1i8)),
+        "Vec<u128>" => both(vec![1u128]),
+        _ => json!({"harness":ascii_cps("unknown generic type")}),
+    }
+}
+
 pub fn run_case(case: &Value) -> Value {
+    if case["kind"] == "convgen" {
+        let mut obs = case.clone();
+        let name = case["ty"].as_str().unwrap_or("").to_string();
+        let out = guarded(|| generic_by_name(&name));
+        obs.as_object_mut().unwrap().insert("out".into(), out);
+        return obs;
+    }
     let mut obs = case.clone();
     let ty = case["ty"].as_str().unwrap_or("");
     let n = &case["node"];
@@ -100,6 +144,10 @@ pub fn run_case(case: &Value) -> Value {
             "u32" => both(iv.parse::<u32>().unwrap_or(0)),
             "u64" => both(iv.parse::<u64>().unwrap_or(0)),
             "usize" => both(iv.parse::<usize>().unwrap_or(0)),
+            "f32" | "f64" if n.get("special").is_some() => {
+                let x = match n["special"].as_str().unwrap_or("") { "inf" => f64::INFINITY, "ninf" => f64::NEG_INFINITY, _ => f64::NAN };
+                if ty == "f32" { both(x as f32) } else { both(x) }
+            }
             "f32" => both((n["p"].as_f64().unwrap_or(0.0) / n["q"].as_f64().unwrap_or(1.0)) as f32),
             "f64" => both(n["p"].as_f64().unwrap_or(0.0) / n["q"].as_f64().unwrap_or(1.0)),
             "bool" => both(n["b"].as_bool().unwrap_or(false)),
